@@ -250,16 +250,19 @@ PROPS["C13"] = dict(
 
 PROPS["C12"] = dict(
     level="proof",
-    explanation="Deductive core: conversion pairing of the section writers and readers for junctions, reservoirs, tanks, pipes and valves (five valve types): the "
-                "real _write_X is executed for an arbitrary element with symbolic attribute values, its formatted lines are handed as tokens to the real _read_X, "
-                "and the arguments passed to add_X must equal the original attributes - in each of the ten flow-unit systems, both head-loss formulas, every "
-                "status / check-valve / pattern / overflow case (token model: float(format(v)) = v). Bounded (text layer incl. formatting, parsing, sections, "
-                "controls, rules, options, curves, patterns, sources, demands): feature models and example networks x 10 units x INP 2.2/2.0, compared through a "
-                "semantic view after one cycle and required unchanged by a second cycle; rule condition trees to depth 2.",
+    explanation="Deductive core (token model: float(format(v)) = v): the real section writer is executed for an arbitrary element with symbolic attribute values, "
+                "its formatted lines are handed as tokens to the real section reader, and what the reader stores must equal the original attributes, in each of "
+                "the ten flow-unit systems - [PIPES] (both head-loss formulas, status, check valve), [JUNCTIONS], [RESERVOIRS], [TANKS], [VALVES] (five types), [PUMPS] "
+                "(power / head, speed, pattern), [EMITTERS], [ENERGY] prices, [SOURCES] (mass vs concentration), [REACTIONS] under every reaction order, conditional "
+                "[CONTROLS], and the [RULES] clause writers with generate_control (IF thresholds, THEN / ELSE values per attribute and valve type). Where the INP "
+                "syntax prescribes the unit the written token is compared with the physical constant written from the property text ([CONTROLS], [CURVES] per "
+                "curve type, emitters, prices). Bounded (text layer incl. formatting, parsing, section splitting, options, times, patterns, demands, status, mixing, "
+                "quality, coordinates, tags): feature models and example networks x 10 units x INP 2.2/2.0, compared through a semantic view after one cycle and "
+                "required unchanged by a second cycle; rule condition trees to depth 2; every clock time of a day through every time-text writer / reader pair.",
     trusted_base=["token model of formatted lines (pyvc/values.py:SymStr)", "to_si/from_si inverse with the right factors (C17, proved)"],
-    not_decided=["pumps, emitters, curves, patterns, demands, status, controls, rules, energy, reactions, sources, mixing, quality, times, options sections: bounded only",
-                 "loss of digits in %g formatting (the statement allows the precision of the file format); MINIMUM/REQUIRED PRESSURE are written with two decimals"],
-    assumptions=["names contain no blanks"],
+    not_decided=["[OPTIONS], [TIMES], [PATTERNS], [DEMANDS], [STATUS], [MIXING], [QUALITY], coordinates, vertices, tags, time / clock-time simple controls: bounded only",
+                 "loss of digits in formatted fields (the statement allows the precision of the file format); MINIMUM/REQUIRED PRESSURE are written with two decimals"],
+    assumptions=["names contain no blanks and are not keywords of the [CONTROLS] syntax (TIME, CLOCKTIME, IF, ...)"],
     rule="bounded: models x units x versions; distinct = distinct (model, unit system, version) triples",
 )
 
